@@ -60,6 +60,13 @@ Theorem C14_null_step_zeroes_target :
 Proof. exact null_step_generic_R. Qed.
 Print Assumptions C14_null_step_zeroes_target.
 
+(* non-vacuity: numbers with a valid angle exist, e.g. 1 = |1| exp(i 0), -1 = |-1| exp(i pi) *)
+Example C14_null_step_hypotheses_nonvacuous :
+  angle_ok (1, 0)%R 0%R /\ angle_ok (-1, 0)%R PI /\ (1, 0)%R <> (0, 0)%R.
+Proof.
+  split; [exact angle_ok_1|]. split; [exact angle_ok_m1|]. intros H. inversion H. lra.
+Qed.
+
 (* the |u_ij| < 1e-20 branch (theta = pi, phi = 0) leaves the target entry unchanged:
    it is exactly zero afterwards iff it was exactly zero before *)
 Theorem C14_null_step_zero_branch :
@@ -125,6 +132,121 @@ Example C14_comp_ok_meaning :
     (comp_ok n (CBS m (S m) r) <-> S m = S m /\ S m < n /\ r = (/ 2)%R) /\
     (comp_ok n (CLoss m r) <-> False).
 Proof. intros. simpl. intuition. Qed.
+
+(* ------------------------------------------------------------------------- *)
+(* T2 of DESIGN "### C14" (nulled_is_diagonal), proved in the form below.     *)
+(*                                                                             *)
+(* [steps_ok eps2 .. n ans steps k U] is the hypothesis on the run of the      *)
+(* double loop started on U: at EVERY step (i, j) the entry u_ij to be nulled  *)
+(* is either exactly 0 (then the |u_ij| < 1e-20 branch is taken) or has        *)
+(* |u_ij|^2 >= eps2 = (1e-20)^2 and the oracle's answer is the code's formula  *)
+(* theta = 2 arctan(|u_ij+1|/|u_ij|), phi = angle u_ij - angle u_ij+1 for some  *)
+(* valid np.angle values.  What is NOT covered (hence the suffix _partial):    *)
+(* an entry with 0 < |u_ij| < 1e-20 — there the zero branch leaves the entry   *)
+(* as it is (C14_null_step_zero_branch), so the nulled matrix is diagonal only *)
+(* up to 1e-20 and an exact statement is false — and floating-point rounding.  *)
+(* The full T2 "for every unitary input the check never fires" is therefore    *)
+(* NOT proved; the correspondence run measures the exact off-diagonal residue  *)
+(* (evidence: max_offdiag_of_exact_nulled_matrix).                             *)
+(* ------------------------------------------------------------------------- *)
+
+(* unfolding of [steps_ok] on a non-empty list of steps *)
+Example C14_steps_ok_meaning :
+  forall eps2 prec uprec2 ints unif norm (n : nat) (ans : nat -> R * R) (i j : nat)
+         (st : list (nat * nat)) (k : nat) (U : mat),
+    steps_ok eps2 prec uprec2 ints unif norm n ans ((i, j) :: st) k U <->
+    (let u0 := U (n - 1 - i) j in
+     let u1 := U (n - 1 - i) (S j) in
+     u0 = (0, 0)%R \/
+     ((eps2 <= cnorm2 rops u0)%R /\
+      exists a0 a1, angle_ok u0 a0 /\ angle_ok u1 a1 /\
+                    ans k = (2 * atan (cabsR u1 / cabsR u0), a0 - a1)%R)) /\
+    steps_ok eps2 prec uprec2 ints unif norm n ans st (S k)
+      (snd (decomp_loop rops (renv eps2 prec uprec2 ints unif norm) n ans [(i, j)] k U)).
+Proof. intros. reflexivity. Qed.
+
+(* the sum-of-squares argument: a unitary matrix that vanishes left of the diagonal is
+   diagonal, with unit-modulus diagonal entries *)
+Theorem C14_unitary_triangular_is_diagonal :
+  forall (n : nat) (M : mat),
+    unitary Cr n M ->
+    (forall r x, r < n -> x < r -> M r x = (0, 0)%R) ->
+    forall k, k < n ->
+      cnorm2 rops (M k k) = 1%R /\ (forall x, x < n -> x <> k -> M k x = (0, 0)%R).
+Proof. exact unitary_triangular_diagonal. Qed.
+Print Assumptions C14_unitary_triangular_is_diagonal.
+
+(* the double-loop invariant: for every exactly unitary U of every size and every run
+   satisfying [steps_ok], the matrix the loop ends with is unitary and DIAGONAL with
+   unit-modulus entries (so check_null cannot fire) *)
+Theorem C14_nulled_is_diagonal_partial :
+  forall eps2 prec uprec2 ints unif norm (n : nat) (U : mat) (ans : nat -> R * R),
+    (0 < eps2)%R -> unitary Cr n U ->
+    steps_ok eps2 prec uprec2 ints unif norm n ans (reck_steps n) 0 U ->
+    let D := snd (decomp_loop rops (renv eps2 prec uprec2 ints unif norm) n ans (reck_steps n) 0 U) in
+    unitary Cr n D /\
+    (forall a b, a < n -> b < n -> a <> b -> D a b = (0, 0)%R) /\
+    (forall a, a < n -> cnorm2 rops (D a a) = 1%R).
+Proof. exact nulled_is_diagonal_partial. Qed.
+Print Assumptions C14_nulled_is_diagonal_partial.
+
+(* hence reck_decomposition raises neither ValueError (check_unitary) nor
+   DecompositionUnsuccessful (check_null), and the nulled matrix it leaves is
+   diag(exp(i end_phase)) when end_phase = np.angle of the diagonal *)
+Theorem C14_reck_decomposition_succeeds_partial :
+  forall eps2 prec uprec2 ints unif norm (n : nat) (U : mat) (ans : nat -> R * R) (endo : nat -> R),
+    (0 < eps2)%R -> (0 < prec)%R -> (0 <= uprec2)%R ->
+    unitary Cr n U ->
+    steps_ok eps2 prec uprec2 ints unif norm n ans (reck_steps n) 0 U ->
+    let D := snd (decomp_loop rops (renv eps2 prec uprec2 ints unif norm) n ans (reck_steps n) 0 U) in
+    (forall a, a < n -> angle_ok (D a a) (endo a)) ->
+    exists dc,
+      reck_decomposition rops (renv eps2 prec uprec2 ints unif norm) n U ans endo = Ok dc /\
+      dc_nulled dc = D /\
+      (forall a b, a < n -> b < n -> a <> b -> dc_nulled dc a b = (0, 0)%R) /\
+      (forall a, a < n -> dc_nulled dc a a = cisR (endo a)).
+Proof. exact reck_decomposition_succeeds_partial. Qed.
+Print Assumptions C14_reck_decomposition_succeeds_partial.
+
+(* end to end: for EVERY exactly unitary U of every size (identity, permutations, matrices
+   with exactly zero entries included) whose run satisfies [steps_ok], Reck.map with the
+   default error model succeeds, the compiled mapped circuit equals U, the heralds are
+   copied, every component is a barrier / adjacent-mode 50:50 beam splitter / phase
+   shifter programmed in [0, 2 pi) *)
+Theorem C14_reck_map_reproduces_partial :
+  forall eps2 prec uprec2 ints unif norm (fuel n : nat) (U : mat) (hin hout : list (nat * Z))
+         (seed : pyseed) (tok : nat) (ans : nat -> R * R) (endo : nat -> R) (g1 g2 g3 : rng),
+    (0 < eps2)%R -> (0 < prec)%R -> (0 <= uprec2)%R ->
+    unitary Cr n U -> seed <> SeedBad ->
+    let U' := tab Cr n (flip n U) in
+    let D := snd (decomp_loop rops (renv eps2 prec uprec2 ints unif norm) n ans (reck_steps n) 0 U') in
+    steps_ok eps2 prec uprec2 ints unif norm n ans (reck_steps n) 0 U' ->
+    (forall a, a < n -> angle_ok (D a a) (endo a)) ->
+    Forall2 (fun x y : nat * Z => snd x = snd y) hin hout ->
+    exists spec,
+      reck_map rops (renv eps2 prec uprec2 ints unif norm) fuel (default_em g1 g2 g3) n U hin hout seed tok ans endo
+        = Ok (mkCirc n spec hin hout, default_em g1 g2 g3) /\
+      meq n (compile rops (renv eps2 prec uprec2 ints unif norm) n spec) U /\
+      Forall (comp_ok n) spec.
+Proof. exact reck_map_reproduces_partial. Qed.
+Print Assumptions C14_reck_map_reproduces_partial.
+
+(* non-vacuity of the hypotheses of the four theorems above (and of C14_reck_reconstructs,
+   whose hypotheses they establish): the 2 x 2 identity with thresholds 1/4, 1/4, 0,
+   oracle answers (0, 0) and end phases (0, pi); its single step takes the zero branch *)
+Example C14_reck_map_reproduces_nonvacuous :
+  forall ints unif norm,
+    let ans : nat -> R * R := fun _ => (0, 0)%R in
+    let endo : nat -> R := fun a => if Nat.eqb a 0 then 0%R else PI in
+    unitary Cr 2 (mid Cr) /\
+    steps_ok (/ 4) (/ 4) 0 ints unif norm 2 ans (reck_steps 2) 0 (tab Cr 2 (flip 2 (mid Cr))) /\
+    (forall a, a < 2 ->
+       angle_ok (snd (decomp_loop rops (renv (/ 4) (/ 4) 0 ints unif norm) 2 ans (reck_steps 2) 0
+                        (tab Cr 2 (flip 2 (mid Cr)))) a a) (endo a)) /\
+    map (fun r => nr_small r)
+        (fst (decomp_loop rops (renv (/ 4) (/ 4) 0 ints unif norm) 2 ans (reck_steps 2) 0
+                (tab Cr 2 (flip 2 (mid Cr))))) = [true].
+Proof. exact example_identity2. Qed.
 
 (* every programmed phase is (v + offset) % (2 pi): with the real modulo it lies in
    [0, 2 pi) for every real v, and taking the modulo does not change exp(i .) *)
